@@ -140,6 +140,19 @@ def check(R):
             R.cut('P2', b, f'narrow the value to {nar}', casts, f'data <= {nar}::MAX', le)
             if lo < 0:
                 R.cut('P2', b, f'narrow the value to {nar}', casts, f'data >= {nar}::MIN', ge)
+        # re-encoding a decoded element reproduces its bytes: TLVElement::to_tlv copies the value under the SOURCE's value type (which
+        # fixes the length-field width) through raw_value - the width-choosing writers (str / utf8 / integers: shortest form) are not used
+        te = R.body('<tlv::read::TLVElement as tlv::traits::ToTLV>::to_tlv')
+        rawv = te.calls('tlv::write::TLVWrite::raw_value')
+        R.floor('TLVWrite::raw_value in TLVElement::to_tlv', len(rawv), 1)
+        for t in rawv:
+            vs_ = prims.sources(te, t.d['a'][2])
+            R.expect('P10', te.fn, 'the value type written is the decoded element\'s own (TLVElement::control)', 'tlv::read::TLVElement::control' in src_calls(vs_) and not [c for c in src_consts(vs_) if c is not None],
+                     'raw_value(tag, control.value_type, ..)', f'value type derives from {sorted(src_calls(vs_))[:4]} / constants {[c for c in src_consts(vs_) if c is not None][:3]}', te.where(t.bb))
+        chooser = sorted(c for c in te.calls_summary if c.startswith('tlv::write::TLVWrite::') and c.split('::')[-1] not in ('raw_value', 'write_raw_data', 'write', 'start_container', 'end_container'))
+        R.expect('P5', te.fn, 'no width-choosing writer is used to re-encode a decoded element', not chooser, 'raw_value / write_raw_data only',
+                 f'{chooser} picks the shortest length / integer form: an element decoded from a non-minimal encoding is re-encoded to different bytes')
+        R.expect('P10', te.fn, 'the length prefix is re-emitted with the source element\'s size class', 'tlv::TLVValueType::variable_size_len' in te.calls_summary, 'variable_size_len()', 'size class not consulted')
         for m, vt in sorted(VT.items()):
             b = R.body('tlv::write::TLVWrite::' + m)
             vts = sorted({st[1].get('var') for i, j, st in b.stmts() if st[1].get('op') == 'agg' and st[1].get('adt') == 'tlv::TLVValueType'})
